@@ -7,6 +7,7 @@ import (
 	"regexp"
 	"strconv"
 	"strings"
+	"time"
 
 	"evylang.dev/evy/pkg/evaluator"
 )
@@ -154,6 +155,17 @@ func C09Programs() []string {
 			decl+"func walk path:[]num depth:num\n    if depth == 0\n        print path\n        return\n    end\n    walk path+[depth] depth-1\n    walk path+[depth*10] depth-1\nend\nwalk "+lit+"+[0] 3\n",
 			decl+"func grown:[]num a:[]num\n    return a + [100]\nend\nbase := "+lit+" + [40]\np := (grown base)\nq := (grown base)\nr := (grown p)\nr2 := (grown p)\nr[0] = 5\nr2[-1] = 6\nprint base p q r r2\n")
 	}
+	// a basic value read from or stored into a map is a copy, whichever statement does it (assignment to a variable, an
+	// element, a new or an existing key), also when the key is then assigned again and again; a composite stored
+	// under a key that holds an EQUAL composite replaces it (the map then shares the new one, not the old one)
+	out = append(out,
+		"m := {k:1}\nx := 0\nx = m.k\narr := [0]\narr[0] = m.k\nb := {j:0}\nb.j = m.k\nb.n = m.k\nm.k = 6\nm.k = m.k + 1\nprint x arr b m\nn := 5\nm.z = n\nm.z = 7\nm[\"z\"] = m.z * 2\nprint n m\n",
+		"m := {k:\"s\"}\nx := \"\"\nx = m.k\narr := [\"\"]\narr[0] = m.k\nm.k = \"t\"\nm.k = m.k + \"u\"\nprint x arr m\nt := true\nf := {b:false}\nf.c = t\nf.c = false\nf.b = f.c\nf.c = true\nprint t f\n",
+		"cnt := {a:0 b:0}\nsnap := [0 0]\nfor i := range 3\n    snap[0] = cnt.a\n    cnt.a = cnt.a + 1\n    snap[1] = cnt.a\n    cnt.b = cnt.a\n    cnt.a = cnt.a + 10\n    print i snap cnt\nend\n",
+		"a := {x:1}\nb := {x:1}\nm := {i:a j:a}\nalias := m\nalias.i = b\nb.y = 2\nprint m a b (m.i == b) (m.j == a)\na.z = 3\nprint m a b\n",
+		"p := [1 2]\nq := [1 2]\nm := {i:p j:p}\nm.i = q\nq[0] = 9\nprint m p q\np[1] = 8\nprint m p q\nw:{}any\nw.k = p\nw.k = [1 8]\np[0] = 7\nprint w p\n",
+		"arr := [[1] [1]]\nn := [1]\narr[0] = n\nn[0] = 5\nprint arr n\nmm := {a:{k:1}}\nnn := {k:1}\nmm.a = nn\nnn.k = 2\ndel nn \"zz\"\nprint mm nn (has mm.a \"k\") (len mm.a)\n",
+	)
 	// composites held in an any are shared through every way a value travels: declaration, assignment, any parameter,
 	// variadic any parameter, return, element of an any array / map literal, loop variable
 	for _, mk := range [][2]string{{"arr := [1 2]", "arr[0] = 9"}, {"arr := {k:1}", "arr.k = 9"}, {"arr := [[1] [2]]", "arr[1][0] = 9"}} {
@@ -619,6 +631,12 @@ func c14Programs() []string {
 		"func g:num n:num\n    if n <= 0\n        return 0\n    end\n    return n + (g n-1)\nend\nprint (g 10)\nprint (g 3)\n",
 		"on key k:string\n    print k\nend\nprint \"main\"\n",
 		"x := 0\nwhile x < 3\n    x = x + 1\n    if x == 2\n        print \"two\"\n    else if x == 3\n        print \"three\"\n    else\n        print \"other\"\n    end\nend\nmove 1 2\nline 3 4\ncircle 5\n",
+		// whatever built-in ran before, loops and calls go on yielding (an endless loop stays interruptible)
+		"clear \"white\"\nfor i := range 3\n    print i\nend\nwhile true\n    print \"x\"\nend\n",
+		"clear\ncolor \"red\"\nmove 1 2\nline 3 4\nrect 1 1\ncircle 2\ntext \"t\"\nwidth 2\nfunc f n:num\n    print n\n    f n+1\nend\nf 0\n",
+		"grid\ngridn 5 \"red\"\npoly [1 2] [3 4]\nellipse 1 2 3\nstroke \"blue\"\nfill \"none\"\ndash 1 2\nlinecap \"round\"\nfont {size:3}\ni := 0\nwhile true\n    i = i + 1\nend\n",
+		"on key k:string\n    clear\n    while true\n        print k\n    end\nend\nclear \"blue\"\nprint \"main\"\n",
+		"cls\nx := read\nprint x\nsleep 0.001\nclear\nfor e := range [1 2 3]\n    print e\nend\nwhile true\n    cls\nend\n",
 		// a stop inside EVERY sub-expression position: each operand is a call that yields and prints, each statement
 		// prints after its operands; stopped inside an operand, nothing of the enclosing expression or statement may happen
 		c14Pre + "print \"bin\" (f 1)+(f 2)*(f 3) (f 1)<(f 2) ((t 1) and (t 2)) ((u 1) or (t 2)) ((u 3) and (t 4)) ((t 5) or (t 6))\nprint \"un\" -(f 1) !(t 1)\n",
@@ -656,6 +674,23 @@ func RunC14(d *Driver) *Report {
 	total := 0
 	nfixed := len(c14Programs())
 	for pi, src := range progs {
+		// watchdog: the platform raises the stop flag at yield cap+50 at the latest; a run that is still going after 30 s
+		// is in a loop or recursion that does not yield — it cannot be interrupted at all (the goroutine is abandoned
+		// and the stream ends here: nothing can stop it)
+		done := make(chan struct{})
+		go func() {
+			defer func() { recover(); close(done) }() //nolint
+			if p, _, _ := ParseSrc(src); p != nil {
+				RunReal(src, RunOpts{MaxYield: cap + 50})
+			}
+		}()
+		select {
+		case <-done:
+		case <-time.After(30 * time.Second):
+			r.Violation(Case{Stream: "stop", Input: src, Real: "still running 30 s after the start, with the stop flag to be raised at yield " + strconv.Itoa(cap+50) + " at the latest: the run does not yield", Spec: "an endless loop or recursion yields at least once per iteration or call and ends with 'stopped' once the flag is raised"})
+			r.DriverCalls = d.N
+			return r
+		}
 		full := CompareEval(d, src, RunOpts{MaxYield: cap + 50})
 		if full.Skipped == "rejected" && pi < nfixed {
 			r.Disagree(Case{Stream: "stop", Input: src, Real: "rejected: " + full.Real.ParseErr, Note: "harness program should be accepted"})
@@ -782,9 +817,9 @@ func RunC15(d *Driver) *Report {
 		case "down", "up", "move":
 			return []any{float64(10 + i), float64(20 + 2*i)}
 		case "key":
-			return []any{[]string{"a", "Enter", "é"}[i%3]}
+			return []any{[]string{"a", "Enter", "é", " ", "\t", " x ", ""}[i%7]}
 		case "input":
-			return []any{"slider-" + strconv.Itoa(i%2), strconv.Itoa(i * 7)}
+			return []any{[]string{"slider-", " slider-", "slider "}[i%3] + strconv.Itoa(i%2), []string{"", " ", "  Ada Lovelace ", "\n"}[i%4] + strconv.Itoa(i*7) + []string{"", " "}[i%2]}
 		}
 		return []any{float64(i) * 16.5}
 	}
